@@ -165,9 +165,8 @@ def _gen_cases(ctx, n):
                     t = _tgt(rng, D, srcs[k])
                     t["size"] = t0["size"]
                     tg.append(t)
-            elif api == "batch_sample_grid" and N > 1:
-                # one target grid for N > 1 images is the known grid-count defect; use N copies of one grid (shared target)
-                tg = [t0] * N
+            elif api == "batch_sample_grid" and N > 1 and rng.random() < .5:
+                tg = [t0] * N     # N references to one grid; otherwise ONE Grid for the whole batch (must come back as N grids)
             c["tgt"] = tg
             if api in ("SampleImage", "AlignImage", "TransformImage"):
                 c["axes"] = rng.choice([None, "GRID", "CUBE", "CUBE_CORNERS", "WORLD"])
@@ -352,7 +351,7 @@ def search(ctx, broken, corr_failures):
 
 
 def explains(broken_item, found):
-    keys = " ".join(v.key for v in found if v.key != "C05:ImageBatch.sample:one-grid:grid-count").lower()
+    keys = " ".join(v.key for v in found).lower()
     b = broken_item.lower()
     if not keys:
         return False
@@ -390,5 +389,5 @@ MANIFEST_ENTRY = {
     "note": "Partial: float32 rounding of coordinates and the 12-decimal rounding of source-cube coordinates are outside the exact model (tolerance "
             "4e-4 relative; nearest ties and ITK buffer edges within 1e-3 are escaped and counted). Nearest equality excludes exact ties by "
             "hypothesis. Trusted: Coq kernel, vm_compute, translator, torch grid_sample kernel semantics (validated by correspondence), SimpleITK as "
-            "second implementation. Known finding: ImageBatch.sample(one Grid) on N>1 images returns N items with 1 grid.",
+            "second implementation.",
 }
